@@ -82,6 +82,15 @@ def fault_variants(prog: list[dict[str, Any]], rng: random.Random):  # noqa: ANN
                 blocks_of(p)[bi]["exit"] = {"kind": ex}
                 blocks_of(p)[bi]["disposables"] = [{"yield": [], "enter": "ok", "exit": "ok", "hold": True}, {"yield": [], "enter": "gate", "exit": "ok", "hold": True}][: 1 if bi % 2 == 0 else 2]
                 yield p, {"block": blk["name"], "kind": blk["kind"], "fault": "body-exception", "exit": ex, "resource_holds_block": True}
+        if blk["kind"] in ("ascope", "sscope"):
+            # the scope has a completion callback that fails (or is an async one failing later): a user-supplied participant of the
+            # exit path whose failure is not the block's business - the body's outcome still reaches the caller unchanged
+            for ex in ("return", "raise-exc", "cancel-self", "raise-base"):
+                for comp in ("sync-raise", "async-raise"):
+                    p = copy.deepcopy(base)
+                    blocks_of(p)[bi]["exit"] = {"kind": ex}
+                    blocks_of(p)[bi]["completion"] = comp
+                    yield p, {"block": blk["name"], "kind": blk["kind"], "fault": "body-exception" if ex != "return" else "failing-completion", "exit": ex, "completion": comp}
         if blk["kind"] != "ascope":
             continue
         # fault-free disposables, one of which claims to have handled the exception (its __aexit__ returns True): the body's
@@ -243,6 +252,10 @@ def judge(R: Recorder, prog: list[dict[str, Any]], meta: dict[str, Any], out: di
     if W.tg_anomalies:
         R.count("exit_waited_without_own_probe", W.tg_anomalies)
     # exception identity
+    if meta["fault"] in ("failing-completion", "late-leaver") and fault_block is not None and fault_block in W.block_phase:
+        # the body ended normally and cleanup is fault free: leaving the block raises nothing
+        caught = W.caught.get(fault_block)
+        R.monitor("exception-identity", caught is None, where={**w0, "kind": "normal-exit-raised"}, detail=f"body of {fault_block} returned normally, yet its caller caught {caught!r}", case=rec_case)
     if meta["fault"] == "body-exception" and fault_block in W.raised:
         raised, caught = W.raised[fault_block], W.caught.get(fault_block)
         R.monitor("exception-identity", caught is raised, where={**w0, "kind": "exception-replaced-or-swallowed"}, detail=f"body of {fault_block} raised {raised!r}, its caller caught {caught!r}", case=rec_case)
